@@ -63,6 +63,17 @@ func carries(err error, token string) bool {
 			found = true
 			return
 		}
+		// non-error panics are carried as errors.ExternalNonError{Recovered: "... <token>"}: the node's
+		// own text counts even when the top-level pretty printer does not render it
+		if _, ok := e.(interface{ ChildErrors() []error }); !ok {
+			if func() (hit bool) {
+				defer func() { _ = recover() }()
+				return strings.Contains(e.Error(), token)
+			}() {
+				found = true
+				return
+			}
+		}
 		if c, ok := e.(childErrors); ok {
 			for _, x := range c.ChildErrors() {
 				walk(x)
@@ -104,8 +115,26 @@ func inTryUpdate(trace []host.Call, firedAt int) bool {
 	return open
 }
 
+// tryUpdateKinds are the callbacks reachable from inside contracts.tryUpdate
+// (existing-code lookup, parsing/checking the new code and its imports, update
+// validation, code write, AccountContractUpdated event).
+var tryUpdateKinds = map[string]bool{
+	"GetAccountContractCode": true, "UpdateAccountContractCode": true, "GetOrLoadProgram": true, "GetCode": true, "ResolveLocation": true,
+	"EmitEvent": true, "GetAccountContractNames": true, "RecoverProgram": true, "GetValue": true,
+}
+
+// unbracketedTryUpdate: programs of plugged-in generators call contracts.tryUpdate without the
+// begin/end log brackets of the exec corpus, so the exact window is unknown. For such a step a fault
+// of a kind reachable inside tryUpdate is judged by the documented exception: it may surface as an
+// unsuccessful deployment result (execution goes on as the program dictates). All variants: a
+// non-error panic raised inside the load callback of GetOrLoadProgram reaches tryUpdate re-wrapped as
+// ExternalError by the outer ExternalInterface wrapper and is recovered as well.
+func unbracketedTryUpdate(src string, f *host.Fault) bool {
+	return strings.Contains(src, ".tryUpdate(") && !strings.Contains(src, "tryUpdate:begin") && tryUpdateKinds[f.Kind]
+}
+
 // faultVerdict judges one faulted step. It returns (outcome class, "" | violation).
-func faultVerdict(res host.Result, faults []*host.Fault) (string, string) {
+func faultVerdict(res host.Result, faults []*host.Fault, src string) (string, string) {
 	last := faults[len(faults)-1] // the fault that must not be swallowed
 	if res.Panic != nil {
 		return "escaped-panic", fmt.Sprintf("panic escaped the runtime: %v", res.Panic)
@@ -125,6 +154,9 @@ func faultVerdict(res host.Result, faults []*host.Fault) (string, string) {
 				}
 			}
 			return "swallowed", "fault inside contracts.tryUpdate: execution succeeded but the deployment result does not report failure"
+		}
+		if unbracketedTryUpdate(src, last) {
+			return "exception-tryupdate-unbracketed", ""
 		}
 		return "swallowed", "execution reported success although the host callback failed"
 	}
@@ -148,6 +180,9 @@ func faultVerdict(res host.Result, faults []*host.Fault) (string, string) {
 	// surface instead (the update failed and the program went on to fail by itself)
 	if inTryUpdate(res.Trace, last.FiredAt) {
 		return "exception-tryupdate-failed", ""
+	}
+	if unbracketedTryUpdate(src, last) && info.Class == "user" {
+		return "exception-tryupdate-unbracketed-failed", ""
 	}
 	return "not-carried", fmt.Sprintf("execution failed (%s, %s) but the error does not carry the injected host failure: %.300s", info.Class, info.Root, res.Err.Error())
 }
@@ -191,8 +226,7 @@ func runFaultCase(fc FaultCase, pre *host.Host) (host.Result, []*host.Fault) {
 
 // Known findings (narrow predicates; only applied when listed in known_findings.json).
 //
-// FX1: RecoverProgram's returned error is discarded by CheckingEnvironment.recoverProgram
-//      (the original parsing/checking error is reported instead).
+// FX1: (fixed in /repo 8ced14f, no longer excluded) RecoverProgram's returned error was discarded.
 // FX2: BLS.aggregateSignatures / aggregatePublicKeys map any host error to nil.
 // FX3: (fixed in /repo 722c2b5, no longer excluded) vmEnvironment.load*Type discarded the error of loadProgram.
 // FX4: atree CheckStorageHealth tests `!ok` before `err` -> a GetValue error during the post-commit
@@ -203,20 +237,18 @@ func knownFinding(fc FaultCase, class string, res host.Result, faults []*host.Fa
 	}
 	info := host.Classify(res)
 	switch {
-	case fc.Kind == "RecoverProgram" && fc.Variant == host.FaultError && class == "not-carried":
-		return "FX1"
 	case (fc.Kind == "BLSAggregateSignatures" || fc.Kind == "BLSAggregatePublicKeys") && fc.Variant == host.FaultError &&
 		(class == "swallowed" || class == "not-carried"):
 		return "FX2"
 	case fc.Kind == "GetValue" && fc.Variant == host.FaultError && class == "not-carried" && info.HasType("atree.SlabNotFoundError") &&
-		len(res.Writes) > 0 && res.Writes[0].TracePos < faults[0].FiredAt:
+		(strings.Contains(res.Err.Error(), "failed to get child slab") || strings.Contains(res.Err.Error(), "failed to get parent slab")):
+		// the two messages are produced only by atree's storage_health_check.go
 		return "FX4"
 	}
 	return ""
 }
 
 var knownRepros = map[string]FaultCase{
-	"FX1": {Item: findItem("script-check-error"), Engine: 0, Step: 0, Kind: "RecoverProgram", Index: 0, Variant: host.FaultError},
 	"FX2": {Item: findItem("script-bls"), Engine: 0, Step: 0, Kind: "BLSAggregateSignatures", Index: 0, Variant: host.FaultError},
 	"FX4": {Item: findItem("tx-storage-big"), Engine: 1, Step: 1, Kind: "GetValue", Index: 14, Variant: host.FaultError},
 }
@@ -232,7 +264,7 @@ func TestC28(t *testing.T) {
 			t.Fatal(err)
 		}
 		res, faults := runFaultCase(fc, nil)
-		class, viol := faultVerdict(res, faults)
+		class, viol := faultVerdict(res, faults, fc.Item.Hist.Steps[fc.Step].Source)
 		rec.Case(true, "replay")
 		if viol != "" {
 			rec.Violation(t, fc, "%s: %s", class, viol)
@@ -240,11 +272,11 @@ func TestC28(t *testing.T) {
 		return
 	}
 
-	for _, id := range []string{"FX1", "FX2", "FX4"} {
+	for _, id := range []string{"FX2", "FX4"} {
 		if rec.Known(id) {
 			fc := knownRepros[id]
 			res, faults := runFaultCase(fc, nil)
-			class, viol := faultVerdict(res, faults)
+			class, viol := faultVerdict(res, faults, fc.Item.Hist.Steps[fc.Step].Source)
 			rec.ReportKnown(id, viol != "" && knownFinding(fc, class, res, faults) == id)
 		}
 	}
@@ -288,8 +320,14 @@ func TestC28(t *testing.T) {
 					// generated histories: every k <= 3 of every kind, plus a sample of the later calls
 					// (the hand-written corpus is enumerated completely)
 					var keep []stepPoint
+					// cost cap (deterministic): big steps (thousands of host calls, seconds per re-run)
+					// get fewer points
+					maxPts := 45
+					if len(pts) > 1500 {
+						maxPts = 8
+					}
 					for _, pt := range pts {
-						if pt.index <= 3 || sampler.Intn(40) == 0 {
+						if (pt.index <= 3 || sampler.Intn(40) == 0) && len(keep) < maxPts {
 							keep = append(keep, pt)
 						}
 					}
@@ -301,7 +339,7 @@ func TestC28(t *testing.T) {
 					for _, variant := range faultVariants {
 						fc := FaultCase{Item: it, Engine: int(eng), Step: si, Kind: pt.kind, Index: pt.index, Variant: variant}
 						res, faults := runFaultCase(fc, pre)
-						class, viol := faultVerdict(res, faults)
+						class, viol := faultVerdict(res, faults, fc.Item.Hist.Steps[fc.Step].Source)
 						total++
 						if class == "not-reached" {
 							// the clean trace is deterministic, so this must not happen
@@ -382,7 +420,7 @@ func pairFaults(t *testing.T, rec *evid.Rec, it execgen.Item, eng host.Engine, s
 			fc := first
 			fc.Kind2, fc.Index2, fc.Variant2 = pt.kind, pt.index, variant
 			res, faults := runFaultCase(fc, pre)
-			class, viol := faultVerdict(res, faults)
+			class, viol := faultVerdict(res, faults, fc.Item.Hist.Steps[fc.Step].Source)
 			if class == "not-reached" {
 				rec.Violation(t, fc, "second fault point (%s, %d) was not reached in the re-run", pt.kind, pt.index)
 			}
